@@ -101,6 +101,26 @@ GLOBAL_DOCS = [{"action": "global", "title": "g", "logsource": {"category": "c",
 rec("collection_global_repeat", lambda: conv(None, GLOBAL_DOCS))
 P_HASH = {"name": "h", "priority": 1, "transformations": [{"id": "h", "type": "hashes_fields", "valid_hash_algos": ["SHA256", "MD5", "SHA1", "IMPHASH"], "field_prefix": "File"}]}
 rec("error_hashes_unknown_algorithm", lambda: conv(P_HASH, [rule({"sel": {"Hashes|contains": "CRC32=abcdef01"}}), rule({"sel": {"Hashes|contains": ["MD5=0123456789abcdef0123456789abcdef", "IMPHASH=0123456789abcdef0123456789abcdef"]}})]))
+FILTER_PATTERN_UNDEF = [rule({"sel": {"f1": "a"}}, "sel"),
+                        {"title": "fp", "logsource": {"category": "c"}, "filter": {"rules": "any", "flt_a": {"user": "x"}, "flt_b": {"host": "y"}, "condition": "not 1 of flt_* and not nosuch"}},
+                        {"title": "ft", "logsource": {"category": "c"}, "filter": {"rules": "any", "o1": {"img": "z"}, "condition": "not 1 of them or nosuch2"}}]
+rec("error_filter_pattern_and_undefined_name", lambda: conv(None, FILTER_PATTERN_UNDEF[:2]))
+rec("error_filter_them_and_undefined_name", lambda: conv(None, [FILTER_PATTERN_UNDEF[0], FILTER_PATTERN_UNDEF[2]]))
+rec("error_filter_pattern_and_undefined_name_load", lambda: [[type(e).__name__ + ":" + str(e) for e in SigmaCollection.from_dicts(FILTER_PATTERN_UNDEF, collect_errors=True).errors]])
+
+
+def ruleset():
+    from pathlib import Path
+
+    d = os.environ.get("VERIF_C20_RULEDIR")
+    if not d:
+        return "no rule directory"
+    coll = SigmaCollection.load_ruleset([Path(d)], collect_errors=True)
+    b = V.make_backend_class(V.K())(None, collect_errors=True)
+    return [b.convert(coll), [r.title for r in coll.rules], [type(e).__name__ + ":" + str(e).replace(d, "<dir>") for r in coll.rules for e in r.errors]]
+
+
+rec("load_ruleset_directory", ruleset)
 rec("to_dict_after_pipeline", lambda: (lambda r: (ProcessingPipeline.from_dict(P_MAP).apply(r), r.fields, sorted(r.detection.detections))[1:])(SigmaRule.from_dict(rule({"sel": {"f1": "a", "f2": "b"}}, fields=["f1", "f2"]))))
 
 
